@@ -141,6 +141,17 @@ def run_rules(ctx, F, A):
     errs = set()
     n_ok = 0
     n_unattributed = 0
+    # byte attribution (ghost CNT) is reliable only if it accounts for every consumed byte on every successful path; otherwise
+    # (e.g. the parser indexes the input directly instead of calling single-byte helpers) the rejection rule has nothing to stand on
+    attribution_ok = True
+    for (s2, rv) in outs:
+        okp0 = ok_payload(ip, s2, rv)
+        if okp0 is not None:
+            cnt0 = s2.mem.get(G_CNT)
+            if s2.ghost.get("c12-acc-lost") or cnt0 is None or not isinstance(okp0[0], VSlice) or okp0[0].root != inp.root \
+                    or not s2.prove_eq0(cnt0.lin - (okp0[0].start - inp.start)):
+                attribution_ok = False
+    ctx.cov["tlf_byte_attribution"] = attribution_ok
     for (s2, rv) in outs:
         okp = ok_payload(ip, s2, rv)
         if okp is None:
@@ -151,7 +162,7 @@ def run_rules(ctx, F, A):
             errs.add(ev)
             # ---- every rejection must be justified by the value the field denotes (completeness: nothing well-formed is refused)
             acc, cnt = s2.mem.get(G_ACC), s2.mem.get(G_CNT)
-            if s2.ghost.get("c12-acc-lost") or acc is None or cnt is None:
+            if not attribution_ok or s2.ghost.get("c12-acc-lost") or acc is None or cnt is None:
                 n_unattributed += 1
                 continue
             why = None
@@ -249,75 +260,89 @@ def run_rules(ctx, F, A):
     for must in ("TlfLengthOverflow", "TlfLengthUnderflow", "TlfReserved", "TlfNextByteTypeMismatch", "TlfInvalidTy", "UnexpectedEOF"):
         if must not in errs:
             ctx.violation("R-C12-EXACT", "missing-error|" + must, where_tlf, "the TLF parser has no path reporting %s" % must)
-    # ------------------------------------------------------------ type table and byte decomposition, exhaustively over the byte
-    fb = F.one("parser::tlf::Ty::from_byte")
+    # ------------------------------------------------------------ type table and byte decomposition, through the TLF parser itself:
+    # every one-byte input and every (list/octet-string) two-byte input is evaluated concretely and compared with the SML rule
+    # (type = bits 4-6, length nibble = bits 0-3, continuation = bit 7; continuation bytes must have type bits 000)
     tyadt = F.adts[c03.TY]
-    bad = []
-    for v in range(256):
-        st = ip.new_state()
-        r = ip.run_root(fb, {}, [cint(v, 8, False)], st)
-        got = None
-        if len(r) == 1:
-            s2, rv = r[0]
-            c = s2.const_of(rv.disc)
-            if c == 0:
-                got = tyadt["variants"][s2.const_of(rv.pay[0][0].disc)]["name"]
-            else:
-                got = "Err"
-        want = TY_TABLE.get(v, "Err")
-        if got != want:
-            bad.append((v, got, want))
-    ctx.count("R-C12-TY", 256)
-    ctx.obligations += 256
-    ctx.discharged += 256 - len(bad)
-    if bad:
-        ctx.violation("R-C12-TY", "from_byte|%s" % ",".join(str(b[0]) for b in bad[:4]), (fb["span"]["file"], fb["span"]["line"], fb["def"]),
-                      "type table differs from the specification at %r" % (bad[:6],))
-    tb = F.one("parser::tlf::tlf_byte")
-    bad = []
-    for v in range(256):
-        st = ip.new_state()
-        root = ip.new_oid("bytes")
-        st.mem[root] = VArr([cint(v, 8, False)])
-        r = ip.run_root(tb, {}, [VSlice(root, (), Lin.const(0), Lin.const(1), False)], st)
-        okr = [(s2, rv) for s2, rv in r if s2.const_of(rv.disc) == 0]
-        got = None
-        if len(okr) == 1:
-            s2, rv = okr[0]
-            rest, tup = rv.pay[0][0].elems
-            more, ty, ln = tup.elems
-            mv = more.e[1] if isinstance(more, VBool) and more.e[0] == "c" else None
-            got = (mv, s2.const_of(ty.lin), s2.const_of(ln.lin), s2.const_of(rest.start), s2.const_of(rest.n))
-        want = ((v & 0x80) != 0, (v >> 4) & 7, v & 0x0f, 1, 0)
-        if got != want:
-            bad.append((v, got, want))
-    ctx.count("R-C12-TY", 256)
-    ctx.obligations += 256
-    ctx.discharged += 256 - len(bad)
-    if bad:
-        ctx.violation("R-C12-TY", "tlf_byte|%s" % ",".join(str(b[0]) for b in bad[:4]), (tb["span"]["file"], tb["span"]["line"], tb["def"]),
-                      "byte decomposition (more, type, length nibble) differs from the specification at %r" % (bad[:4],))
-    # continuation byte with type bits -> error ; boolean with continuation -> error
-    nb = F.one("parser::tlf::tlf_next_byte")
-    bad = []
-    for v in range(256):
-        st = ip.new_state()
-        root = ip.new_oid("bytes")
-        st.mem[root] = VArr([cint(v, 8, False)])
-        r = ip.run_root(nb, {}, [VSlice(root, (), Lin.const(0), Lin.const(1), False)], st)
-        oks = [x for x in r if x[0].const_of(x[1].disc) == 0]
-        if ((v >> 4) & 7) != 0:
-            if oks:
-                bad.append(v)
-        else:
-            if len(oks) != 1:
-                bad.append(v)
-    ctx.count("R-C12-TY", 256)
-    ctx.obligations += 256
-    ctx.discharged += 256 - len(bad)
-    if bad:
-        ctx.violation("R-C12-TY", "next_byte", (nb["span"]["file"], nb["span"]["line"], nb["def"]),
-                      "continuation bytes must be accepted exactly when their type bits are 000 (wrong for %r)" % (bad[:6],))
+    tyname = {v["idx"]: v["name"] for v in tyadt["variants"]}
+
+    def run_tlf(bs):
+        st0 = ip.new_state()
+        root0 = ip.new_oid("bytes")
+        st0.mem[root0] = VArr([cint(x, 8, False) for x in bs])
+        r = ip.run_root(tlf_parse, {}, [VSlice(root0, (), Lin.const(0), Lin.const(len(bs)), False)], st0)
+        res = set()
+        for s2, rv in r:
+            okp_ = ok_payload(ip, s2, rv)
+            if okp_ is None:
+                ev_ = err_variant(F, s2, rv)
+                if ev_ == "InvalidTlf":
+                    e_ = rv.pay[1][0].pay[s2.const_of(rv.pay[1][0].disc)][0]
+                    ev_ = F.adts[TLFE]["variants"][s2.const_of(e_.disc)]["name"]
+                res.add(("Err", ev_))
+                continue
+            rest_, t_ = okp_
+            res.add(("Ok", tyname.get(s2.const_of(t_.elems[tfn.index("ty")].disc)), s2.const_of(t_.elems[tfn.index("len")].lin),
+                     s2.const_of(rest_.start), s2.const_of(rest_.n)))
+        if len(res) != 1:
+            return ("outcomes", tuple(sorted(res, key=str)))
+        return res.pop()
+
+    def spec_tlf(bs):
+        b0 = bs[0]
+        ty = TY_TABLE.get((b0 >> 4) & 7)
+        if ty is None:
+            return ("Err", "TlfInvalidTy")
+        acc, k = b0 & 15, 1
+        more = bool(b0 & 0x80)
+        if more and ty == "Boolean":
+            return ("Err", "TlfReserved")
+        while more:
+            if k >= len(bs):
+                return ("Err", "UnexpectedEOF")
+            bk = bs[k]
+            if (bk >> 4) & 7:
+                return ("Err", "TlfNextByteTypeMismatch")
+            acc, k, more = acc * 16 + (bk & 15), k + 1, bool(bk & 0x80)
+        if ty != "ListOf":
+            if acc < k:
+                return ("Err", "TlfLengthUnderflow")
+            acc -= k
+        return ("Ok", ty, acc, k, len(bs) - k)
+    old_sum2 = ip.summarizable
+    ip.summarizable = None
+    old_nu = ip._no_unroll
+    ip._no_unroll = set()          # concrete inputs: loops are unrolled, not summarised
+    try:
+        bad = []
+        for v in range(256):
+            got, want = run_tlf([v]), spec_tlf([v])
+            if got != want:
+                bad.append(((v,), got, want))
+        ctx.count("R-C12-TY", 256)
+        ctx.obligations += 256
+        ctx.discharged += 256 - len(bad)
+        if bad:
+            ctx.violation("R-C12-TY", "first-byte|%s" % ",".join("%02x" % b_[0][0] for b_ in bad[:4]), where_tlf,
+                          "one-byte input: type table / length nibble / continuation bit differ from the SML rule at %r" % (bad[:4],))
+        bad = []
+        n2 = 0
+        for b0 in (0x80, 0x82, 0xf0, 0xf1, 0xd2, 0xe3):
+            for v in range(256):
+                n2 += 1
+                got, want = run_tlf([b0, v]), spec_tlf([b0, v])
+                if got != want:
+                    bad.append(((b0, v), got, want))
+        ctx.count("R-C12-TY", n2)
+        ctx.obligations += n2
+        ctx.discharged += n2 - len(bad)
+        if bad:
+            ctx.violation("R-C12-TY", "next-byte|%s" % ",".join("%02x%02x" % b_[0] for b_ in bad[:4]), where_tlf,
+                          "two-byte input: continuation bytes must be accepted exactly when their type bits are 000 and contribute their low nibble "
+                          "(differs at %r)" % (bad[:4],))
+    finally:
+        ip.summarizable = old_sum2
+        ip._no_unroll = old_nu
     ctx.count("R-C12-TY")
     ok = "TlfReserved" in errs
     # boolean + continuation must be rejected: no Ok outcome with ty == Boolean that consumed more than one byte
@@ -408,91 +433,104 @@ def check_takes(ctx, F, A):
 
 
 def check_ints(ctx, F, A):
+    """Integers, decided on <T as SmlParseTlf>::parse_with_tlf itself for every type and every admissible length (a concrete
+    TLF, a symbolic input): exactly `len` bytes are taken; the array handed to T::from_be_bytes consists of SIZE - len fill bytes
+    followed by the len input bytes in order; the fill byte is 0xff exactly for a signed type whose first byte is >= 0x80, else
+    0x00; the value returned is the result of that conversion.  How the array is assembled does not matter."""
     ip = A.ip
-    pn = F.one("parser::num::parse_num")
-    where = (pn["span"]["file"], pn["span"]["line"], pn["def"])
     tfn = [f["name"] for f in F.adts[c03.TLF]["variants"][0]["fields"]]
-    for tname, ity in sorted(INT_TYS.items()):
-        if tname in ("usize", "isize", "u128", "i128"):
-            continue
-        size, signed = ity["w"] // 8, ity["sg"]
-        # ---- the impl wires parse_num::<size, signed> to T::from_be_bytes
-        b = find_impl_body(F, SPT, "parse_with_tlf", tname)
-        ctx.count("R-C12-INT")
-        calls = CFG(b).calls()
-        pnc = [t for _bb, t in calls if (t.get("callee") or {}).get("def") == "parser::num::parse_num"]
-        conv = []
-        for _bb, t in calls:
-            for a in t["args"]:
-                if a.get("k") == "const" and "fn" in a:
-                    conv.append(a["fn"]["def"])
-        ok = len(pnc) == 1 and [a["c"].get("v") for a in pnc[0]["callee"]["args"] if a["g"] == "const"] == [size, int(signed)] \
-            and conv == ["core::num::<impl %s>::from_be_bytes" % tname]
-        ctx.oblig(ok, nontrivial=False)
-        if not ok:
-            ctx.violation("R-C12-INT", "wiring|" + tname, (b["span"]["file"], b["span"]["line"], b["def"]),
-                          "%s must be decoded by parse_num::<%d, %s> followed by %s::from_be_bytes (got consts %r, conversion %r)"
-                          % (tname, size, str(signed).lower(), tname, [a["c"].get("v") for t in pnc for a in t["callee"]["args"] if a["g"] == "const"], conv))
-        # ---- parse_num::<size, signed> itself, from the guarded precondition 1 <= len <= size
-        env = {"SIZE": size, "IS_SIGNED": int(signed)}
-        copies, fills = [], []
+    from ..vra.stdsum import slice_elem
+    rec = {}
 
-        def on_copy(ip_, frame, bb, st, dst, src):
-            st.ghost["c12-copy"] = st.ghost.get("c12-copy", ()) + ((dst, src),)
+    def on_call(ip_, frame, bb, t, st, callee, args):
+        r = (callee.get("resolved") or callee)["def"]
+        if r.startswith("core::num::<impl ") and r.endswith(">::from_be_bytes") and st.ghost.get("c12-int-on"):
+            a0 = args[0]
+            st.ghost["c12-be"] = (r, tuple(a0.elems) if isinstance(a0, VArr) else None)
 
-        def on_assign(ip_, frame, bb, stmt, st, val):
-            if stmt["rv"]["k"] == "repeat" and frame.body is pn:
-                x = val.elems[0] if isinstance(val, VArr) and val.elems else (val.allv if isinstance(val, VArrS) else None)
-                st.ghost["c12-fill"] = x
-        ip.on_copy.append(on_copy)
-        ip.on_assign.append(on_assign)
-        old_thr = ip.join_threshold
-        ip.join_threshold = 10 ** 9
-        try:
-            st = ip.new_state()
-            args = ip.fresh_args(pn, env, st)
-            inp = args[0]
-            tlf = ip.read_raw(st, args[1].root, args[1].steps)
-            ln = tlf.elems[tfn.index("len")].lin
-            st.assume_ge0(ln - 1)
-            st.assume_ge0(Lin.const(size) - ln)
-            outs = ip.run_root(pn, env, args, st)
-        finally:
-            ip.join_threshold = old_thr
-            ip.on_copy.remove(on_copy)
-            ip.on_assign.remove(on_assign)
-        n_ok = 0
-        for (s2, rv) in outs:
-            if s2.const_of(rv.disc) != 0:
+    def on_res(ip_, frame, bb, t, callee, args, outs):
+        r = (callee.get("resolved") or callee)["def"]
+        if r.startswith("core::num::<impl ") and r.endswith(">::from_be_bytes"):
+            for s2, v in outs:
+                if s2.ghost.get("c12-int-on"):
+                    s2.ghost["c12-be-ret"] = v
+    ip.on_call.append(on_call)
+    ip.on_call_result.append(on_res)
+    old_thr, old_sum = ip.join_threshold, ip.summarizable
+    ip.join_threshold, ip.summarizable = 10 ** 9, None
+    try:
+        for tname, ity in sorted(INT_TYS.items()):
+            if tname in ("usize", "isize", "u128", "i128"):
                 continue
-            n_ok += 1
-            ctx.count("R-C12-INT")
-            rest, arr = rv.pay[0][0].elems
-            cp = s2.ghost.get("c12-copy", ())
-            fill = s2.ghost.get("c12-fill")
-            first = s2.ghost.get(("elem", inp.root, inp.steps, inp.start))
-            ok_take = rest.root == inp.root and s2.prove_eq0(rest.start - inp.start - ln)
-            ok_copy = len(cp) == 1 and s2.prove_eq0(cp[0][0].start - (Lin.const(size) - ln)) and s2.prove_eq0(cp[0][0].n - ln) \
-                and cp[0][1].root == inp.root and s2.prove_eq0(cp[0][1].start - inp.start) and s2.prove_eq0(cp[0][1].n - ln)
-            fv = s2.const_of(fill.lin) if isinstance(fill, VInt) else None
-            ok_fill = False
-            if fv == 0xff:
-                ok_fill = signed and isinstance(first, VInt) and (s2.interval(first.lin)[0] or 0) >= 0x80
-            elif fv == 0:
-                ok_fill = (not signed) or (isinstance(first, VInt) and (s2.interval(first.lin)[1] if s2.interval(first.lin)[1] is not None else 255) <= 0x7f)
-            ok = ok_take and ok_copy and ok_fill
-            ctx.oblig(ok)
-            if len(ctx.samples) < 8 and tname in ("i16", "u32"):
-                ctx.sample({"parse_num": tname, "fill": fv, "first_byte_range": s2.interval(first.lin) if isinstance(first, VInt) else None,
-                            "copy_dst_start": repr(cp[0][0].start) if cp else None})
-            if not ok:
-                what = "takes exactly len bytes" if not ok_take else ("copies them right-aligned to [SIZE-len, SIZE)" if not ok_copy else
-                                                                        "fills with 0xff exactly when signed and the first byte is >= 0x80 (fill %s, first byte %s)"
-                                                                        % (fv, s2.interval(first.lin) if isinstance(first, VInt) else None))
-                ctx.violation("R-C12-INT", "%s|%s" % (tname, "take" if not ok_take else ("copy" if not ok_copy else "fill")), where,
-                              "parse_num::<%d, %s>: cannot prove that it %s" % (size, str(signed).lower(), what))
-        if n_ok < (2 if signed else 1):
-            ctx.violation("BELOW-FLOOR", "R-C12-INT|" + tname, where, "parse_num::<%d,%s>: %d success paths" % (size, signed, n_ok))
+            size, signed = ity["w"] // 8, ity["sg"]
+            b = find_impl_body(F, SPT, "parse_with_tlf", tname)
+            where = (b["span"]["file"], b["span"]["line"], b["def"])
+            slty = b["locals"][1]["ty"]
+            tyv = c03.ty_variant(F, "Integer" if signed else "Unsigned")
+            for ln in range(1, size + 1):
+                st = ip.new_state()
+                st.ghost["c12-int-on"] = True
+                inp = ip.fresh_value(st, slty, "input")
+                vals = [None, None]
+                vals[tfn.index("ty")] = VEnum(c03.TY, Lin.const(tyv), {tyv: ()})
+                vals[tfn.index("len")] = cint(ln, 32, False)
+                root = ip.new_oid("tlf")
+                st.mem[root] = VAgg("struct", c03.TLF, vals)
+                outs = ip.run_root(b, {}, [inp, VRef(root, (), False)], st)
+                n_ok = 0
+                fills = set()
+                for (s2, rv) in outs:
+                    okp = ok_payload(ip, s2, rv)
+                    if okp is None:
+                        continue
+                    n_ok += 1
+                    ctx.count("R-C12-INT")
+                    rest, val = okp
+                    be = s2.ghost.get("c12-be")
+                    why = None
+                    if not (isinstance(rest, VSlice) and rest.root == inp.root and s2.prove_eq0(rest.start - inp.start - ln)):
+                        why = "takes exactly len bytes"
+                    elif be is None or be[0] != "core::num::<impl %s>::from_be_bytes" % tname or be[1] is None or len(be[1]) != size:
+                        why = "converts a %d-byte array with %s::from_be_bytes (got %r)" % (size, tname, be and be[0])
+                    elif s2.ghost.get("c12-be-ret") != val:
+                        why = "returns the value of that conversion"
+                    else:
+                        arr = be[1]
+                        first = slice_elem(ip, s2, inp, Lin.const(0))
+                        for j in range(ln):
+                            src = slice_elem(ip, s2, inp, Lin.const(j))
+                            e = arr[size - ln + j]
+                            if not (isinstance(e, VInt) and isinstance(src, VInt) and s2.prove_eq0(e.lin - src.lin)):
+                                why = "copies the bytes right-aligned to [SIZE-len, SIZE) in order (byte %d differs)" % j
+                                break
+                        if why is None:
+                            fvs = {s2.const_of(e.lin) if isinstance(e, VInt) else None for e in arr[:size - ln]}
+                            if len(fvs) > 1 or (fvs and None in fvs):
+                                why = "fills the leading bytes with one constant"
+                            elif fvs:
+                                fv = fvs.pop()
+                                fills.add(fv)
+                                lo, hi = s2.interval(first.lin) if isinstance(first, VInt) else (None, None)
+                                if fv == 0xff:
+                                    good = signed and lo is not None and lo >= 0x80
+                                elif fv == 0:
+                                    good = (not signed) or (hi is not None and hi <= 0x7f)
+                                else:
+                                    good = False
+                                if not good:
+                                    why = "fills with 0xff exactly when signed and the first byte is >= 0x80 (fill %s, first byte %s)" % (fv, (lo, hi))
+                    ctx.oblig(why is None)
+                    if len(ctx.samples) < 8 and tname in ("i16", "u32") and ln == 1 and why is None:
+                        ctx.sample({"integer": tname, "len": ln, "array_given_to_from_be_bytes": [repr(e) for e in be[1]]})
+                    if why:
+                        ctx.violation("R-C12-INT", "%s|%s" % (tname, why.split()[0]), where,
+                                      "%s with a %d-byte encoding: cannot prove that it %s" % (tname, ln, why))
+                if n_ok < (2 if signed and ln < size else 1):
+                    ctx.violation("BELOW-FLOOR", "R-C12-INT|%s|%d" % (tname, ln), where, "%s, %d bytes: %d success paths" % (tname, ln, n_ok))
+    finally:
+        ip.join_threshold, ip.summarizable = old_thr, old_sum
+        ip.on_call.remove(on_call)
+        ip.on_call_result.remove(on_res)
 
 
 def check_bool_octet(ctx, F, A, tfn):
